@@ -5,6 +5,14 @@ import json, subprocess
 BASELINE = json.load(open('/root/.vp/BASELINE.json'))['cmd']
 
 CHECKS = {
+ "C03": dict(level="exploration", design="DESIGN.md §4 C03",
+   text="Differential purity check on the real VM: each of a set of side-effect-free functions (directed shapes around closures, captured-variable updates after stack growth, loops, generators, wide frames at every allocation boundary, plus every expression body of up to 2 (3) nodes) is called in 15 dynamic contexts after every history of up to 2 (3) steps from a 9-step alphabet; each observation must equal what the same call gives as the only statement of a fresh session, which is anchored once per function in the reference model.",
+   note="Trusts the reference model only for the baseline of each function; all other comparisons are between runs of the real VM. Functions, contexts and histories outside the alphabets are not covered.",
+   technique="bounded exhaustive enumeration of function x context x history with a differential oracle on the real code"),
+ "C04": dict(level="exploration", design="DESIGN.md §4 C04",
+   text="Every point of a seven-dimensional product of scope skeletons (shadowed global or not, 0/1/199 other locals, where the variable is defined, 11 inner-function shapes, updates after capture with and without stack growth, six ways the inner function is used or escapes, stack churn before an escaped function is called) plus recursive definers at depth 3/50/200 is executed with unique tags on every write; every read must hit the binding the by-name rules predict, and globals, caller variables and arguments are rendered before and after every call.",
+   note="Trusts the reference model's scoping rules (own, one-level captured, global); programs whose reads are ambiguous between the lexical and the dynamic reading (D-use-before-def) are skipped and counted.",
+   technique="exhaustive enumeration of a finite product of scope skeletons with tagged writes against an executable reference model"),
  "C08": dict(level="model_checking", design="DESIGN.md §4 C08",
    text="Explicit-state search over session histories: every sequence of up to 3 (4) statements from an alphabet of 26 (good statements; lexer, parser and unbalanced-input errors; every runtime error class at top level, at depth, in loop bodies, in suspended and nested generators, in a zip, in closures, with partial global effects; a top-level return out of nested loops) is replayed on a fresh real VM and followed by 9 observers; each statement is compared with the reference model, the machine must be at rest after every statement (hooks), and the observers must answer exactly as in the failure-free twin session holding the same globals.",
    note="States (reference global store + machine state) are reported for coverage; every history is executed in full on the real VM (traces_validated_against_impl = histories). Longer histories and other failing statements are not covered.",
